@@ -411,7 +411,7 @@ func cmdCheck(args []string) int {
 	pkgHarness := map[string][]string{}
 	prefix := "Verif" + prop
 	for _, rel := range pc.Pkgs {
-		sp := w.SSAPkgs[sx.ModulePath+"/"+rel]
+		sp := w.SSAPkgs[pkgPath(rel)]
 		if sp == nil {
 			fmt.Fprintf(os.Stderr, "package %s not loaded\n", rel)
 			return 2
@@ -457,7 +457,7 @@ func cmdCheck(args []string) int {
 	nativeDone := map[string]chan struct{}{}
 	if !*noNative {
 		for _, rel := range pc.Pkgs {
-			sp := w.SSAPkgs[sx.ModulePath+"/"+rel]
+			sp := w.SSAPkgs[pkgPath(rel)]
 			virt, real, err := genTestMain(work, repo, rel, sp.Pkg.Name(), pkgHarness[rel])
 			if err != nil {
 				fmt.Fprintln(os.Stderr, err)
@@ -468,7 +468,7 @@ func cmdCheck(args []string) int {
 		if pc.Sched {
 			var ipkgs []string
 			for _, rel := range pc.Pkgs {
-				ipkgs = append(ipkgs, sx.ModulePath+"/"+rel)
+				ipkgs = append(ipkgs, pkgPath(rel))
 			}
 			ipkgs = append(ipkgs, pc.SchedPkgs...)
 			iov, err := sx.InstrumentForSched(w, ipkgs, filepath.Join(work, "sched"))
